@@ -167,6 +167,10 @@ func (r *ItemReader) decodeCountItems(item func(uint64, uint64, interface{}) err
 	switch count, err := isaac.BlockItemDecodeLineItemsWithWorker(
 		br, workerSize, r.enc.Decode,
 		func(index uint64, v interface{}) error {
+			if index >= u.Count {
+				return errors.Errorf("too many items; expected %d", u.Count)
+			}
+
 			return item(u.Count, index, v)
 		},
 	); {
